@@ -9,7 +9,8 @@ from .common import sym_mesh
 
 META = dict(
     bounds=dict(
-        quick=dict(mesh_n="(2,), (1,2)", nvdim="1..3", norm_spec="constant / per-cell array / callable (UF of the point) / zero in places; via constructor and via setter",
+        quick=dict(also="integer-typed vectors: norm and orientation (native)",
+                   mesh_n="(2,), (1,2)", nvdim="1..3", norm_spec="constant / per-cell array / callable (UF of the point) / zero in places; via constructor and via setter",
                    vectors="each cell free or exactly zero (symbolic selector bit)"),
         thorough=dict(mesh_n="(2,), (2,2), (1,2,1)", nvdim="1..4", norm_spec="as quick", vectors="as quick"),
     ),
